@@ -123,11 +123,86 @@ def apply(ctx, W):
 
     # ------------------------------------------------------------------ S4 functions (trusted stub), S5 defaultable (trusted stub)
     l_impl = loop_by_header(fw, b, "type_impl.functions")
-    # S4a: injection of base members (FnMut closure capturing two &mut locals, filter().enumerate()): trusted stub
-    u4a = rules.outline(ctx, fw, b, top_let("associated_functions"), stmt_with_loop(loop_by_header(fw, b, "regions.iter().filter")), "build__base_functions",
+    # S4a: injection of base members (C07): W8 closure inlining + R-idx-filter, verified
+    l_bases = loop_by_header(fw, b, "regions.iter().filter")
+    u4a = rules.outline(ctx, fw, b, top_let("associated_functions"), stmt_with_loop(l_bases), "build__base_functions",
         "semantic: &SemanticState, resolvee_path: &ItemPath, regions: &Vec<Region>, vftable: &Option<TypeVftable>",
         "&*semantic, resolvee_path, &regions, &vftable", outs=["mut associated_functions", "mut associated_functions_used_names"],
-        types=["Vec<Function>", "HashSet<String>"], kind="try", mode="T", tags=("C07",))
+        types=["Vec<Function>", "HashSet<String>"], kind="try", tags=("C07", "C12", "C17"), ensures=[
+            ("res is Ok ==> base_functions_ok(&semantic.type_registry, regions@, vftable_names(*vftable), res->Ok_0.0@)", ("C07", "C17"), "base-functions"),
+            ("res is Ok ==> res->Ok_0.1@ =~= vftable_names(*vftable).union(names_set(res->Ok_0.0@))", ("C07",), "used-names"),
+        ])
+    # used names start with the type's own vftable function names
+    un = top_let("associated_functions_used_names")
+    colls = [c for c in fw.method_calls(b, "collect") if un["span"][0] <= c["span"][0] < un["span"][1]]
+    if len(colls) != 1:
+        raise rules.WeaveError("build: used-names initialiser has no single collect()")
+    mp = rules._recv_call(fw, colls[0], "map")
+    it = rules._recv_call(fw, mp, "iter")
+    x = " ".join(fw.text(it["receiver_span"]).split())
+    fw.replace(colls[0]["span"][0], mp["paren_span"][0] + 1, "crate::verif_prelude::v_map_collect_string_set(%s.as_slice(), " % x, "W9-R-std-map-collect-set")
+    fw.replace(mp["paren_span"][1] - 1, colls[0]["span"][1], ", Ghost(names_of(%s@)))" % x, "W9-R-std-map-collect-set")
+    closure_annot(ctx, fw, u4a, [c for c in fw.closures(b) if c["span"] == mp["args"][0]["span"]][0], params=["f: &Function"], ret="s: String", ensures=["s == f.name"], tags=("C07",))
+    outer_map = [m_ for m_ in fw.method_calls(b, "map") if un["span"][0] <= m_["span"][0] < un["span"][1] and m_ is not mp and m_["id"] != mp["id"]]
+    outer_map = [m_ for m_ in outer_map if m_["span"][0] < mp["span"][0]]
+    if len(outer_map) != 1:
+        raise rules.WeaveError("build: used-names initialiser has an unexpected shape")
+    closure_annot(ctx, fw, u4a, [c for c in fw.closures(b) if c["span"] == outer_map[0]["args"][0]["span"]][0], params=["v: &TypeVftable"],
+                  ret="st: HashSet<String>", ensures=["st@ == names_set(v.functions@)"], tags=("C07",))
+    ghost(ctx, fw, u4a, after(fw, un), """let ghost used0 = associated_functions_used_names@;
+    let ghost mut srcs: Seq<(Function, String)> = Seq::empty();
+    proof { assert(used0 =~= vftable_names(*vftable)); assert(names_set(associated_functions@) =~= Set::<String>::empty()); }""")
+    rules.for_filter_to_index_loop(ctx, fw, u4a, l_bases, seq="regions", ivar="i_b", cvar="i_n")
+    base_inv = [
+        ("injected_seq(srcs, used0, associated_functions@)", ("C07", "C17")),
+        ("associated_functions_used_names@ =~= used0.union(names_set(associated_functions@))", ("C07",)),
+    ]
+    rules.index_loop_spec(ctx, fw, u4a, l_bases, tags=("C07",), invariants=[
+        ("i_n == bases_of(regions@, i_b as int).len()", ("C07",)),
+        ("srcs == sources_of(&semantic.type_registry, bases_of(regions@, i_b as int), i_n as int)", ("C07",)),
+    ] + base_inv)
+    ghost(ctx, fw, u4a, body_start(l_bases), """let ghost bases0 = bases_of(regions@, i_b - 1); let ghost srcs0 = srcs;
+        proof {
+            assert(bases_of(regions@, i_b as int) == bases0.push(*base_region));
+            lemma_sources_prefix(&semantic.type_registry, bases0.push(*base_region), bases0, i_n - 1);
+        }""")
+    ghost(ctx, fw, u4a, body_end(l_bases), """proof {
+            let reg = &semantic.type_registry;
+            let bases1 = bases0.push(*base_region);
+            assert(base_type_of(reg, bases1[i_n - 1]) == Some(Some((base_name, *base_type))));
+            assert(srcs == srcs0 + base_sources(*base_type, i_n - 1, base_name));
+            assert(srcs == sources_of(reg, bases1, i_n as int));
+        }""")
+    # W8: inline `add_functions`
+    cl = rules.inline_closure(fw, b, "add_functions", "functions: &[Function]")
+    l_in = [l for l in fw.loops(b) if l["kind"] == "for" and cl["body_span"][0] <= l["span"][0] < cl["body_span"][1]]
+    if len(l_in) != 1:
+        raise rules.WeaveError("build: closure add_functions has no single loop")
+    l_in = l_in[0]
+    ghost(ctx, fw, u4a, cl["body_span"][0] + 1, "let ghost mark = srcs;")
+    rules.for_filter_to_index_loop(ctx, fw, u4a, l_in, seq="functions", ivar="i_f", cvar="i_p")
+    rules.index_loop_spec(ctx, fw, u4a, l_in, tags=("C07",), invariants=[
+        ("srcs == mark + tagged(publics(functions@, i_f as int), base_name)", ("C07",)),
+    ] + base_inv)
+    bst = rules.body_stmts(fw, l_in)
+    ghost(ctx, fw, u4a, bst[0]["span"][0], """let ghost out_before = associated_functions@; let ghost src = functions@[i_f - 1];
+                proof { assert(publics(functions@, i_f as int) == publics(functions@, i_f - 1).push(src)); }""")
+    ghost(ctx, fw, u4a, bst[-1]["span"][0], "let ghost newf = function;")
+    ghost(ctx, fw, u4a, body_end(l_in), """proof {
+                    lemma_injected_seq_push(srcs, used0, out_before, src, base_name, newf);
+                    lemma_names_set_push(out_before, newf);
+                    assert(tagged(publics(functions@, i_f as int), base_name) =~= tagged(publics(functions@, i_f - 1), base_name).push((src, base_name)));
+                    srcs = srcs.push((src, base_name));
+                }""")
+    mac = [m_ for m_ in fw.in_fn(b, ("macro",)) if m_["path"] == "format" and cl["body_span"][0] <= m_["span"][0] < cl["body_span"][1]]
+    if len(mac) != 1:
+        raise rules.WeaveError("build: closure add_functions has no single format!")
+    rules.fmt_value(fw, mac[0], "v_format2_str", str_args=True)
+    fb = [c for c in fw.calls(b, "FunctionBody::field") if cl["body_span"][0] <= c["span"][0] < cl["body_span"][1]]
+    if len(fb) != 1:
+        raise rules.WeaveError("build: closure add_functions has no single FunctionBody::field call")
+    rules.redirect_call(fw, fb[0], "v_function_body_field")
+
     # S4b: the functions of the type's impl block (verified)
     u4b = rules.outline(ctx, fw, b, stmt_with_loop(l_impl), stmt_with_loop(l_impl), "build__impl_functions",
         "module: &crate::semantic::Module, semantic: &SemanticState, resolvee_path: &ItemPath, mut associated_functions: Vec<Function>, mut associated_functions_used_names: HashSet<String>",
@@ -137,6 +212,7 @@ def apply(ctx, W):
             ("""res is Ok ==> match impl_block_of(module, *resolvee_path) {
                     Some(b) => forall|j: int, k: int| 0 <= j < k < b.functions@.len() ==> (#[trigger] b.functions@[j]).name.0 != (#[trigger] b.functions@[k]).name.0,
                     None => true }""", ("C05",), "impl-no-duplicate-names"),
+            ("res is Ok ==> res->Ok_0.0@.len() >= associated_functions@.len() && res->Ok_0.0@.take(associated_functions@.len() as int) == associated_functions@", ("C07",), "impl-keeps-base-functions"),
         ])
     ghost(ctx, fw, u4b, stmt_with_loop(l_impl)["span"][0], "let ghost base0 = associated_functions@;")
     rules.for_to_index_loop(ctx, fw, u4b, l_impl, seq="type_impl.functions", ivar="i_m")
@@ -144,6 +220,7 @@ def apply(ctx, W):
         ("reg_wf(&semantic.type_registry)", ("C05",)),
         ("*type_impl == module.impls@[*resolvee_path] && module.impls@.contains_key(*resolvee_path)", ("C05",)),
         ("associated_functions@.len() == base0.len() + i_m", ("C05",)),
+        ("associated_functions@.take(base0.len() as int) == base0", ("C07",)),
         ("forall|k: int| 0 <= k < i_m ==> associated_functions_used_names@.contains((#[trigger] type_impl.functions@[k]).name.0)", ("C05",)),
         ("forall|j: int, k: int| 0 <= j < k < i_m ==> (#[trigger] type_impl.functions@[j]).name.0 != (#[trigger] type_impl.functions@[k]).name.0", ("C05",)),
         ("forall|k: int| 0 <= k < i_m ==> fn_built(&semantic.type_registry, module_scope(module), false, #[trigger] type_impl.functions@[k], associated_functions@[base0.len() + k])", ("C05", "C16", "C17")),
@@ -244,6 +321,8 @@ def apply(ctx, W):
             })""", ("C01", "C02", "C03"), "build-alignment"),
             ("""res is Ok && res->Ok_0 is Some ==> declared_fields_placed(&old(semantic).type_registry, module_scope(&module_of(old(semantic), *resolvee_path)->0),
                     definition.statements@, res->Ok_0->0.inner->Type_0.regions@, &final(semantic).type_registry)""", ("C01", "C03", "C20"), "build-placement"),
+            ("""res is Ok && res->Ok_0 is Some ==> build_base_functions_ok(&final(semantic).type_registry, res->Ok_0->0.inner->Type_0.regions@,
+                    res->Ok_0->0.inner->Type_0.vftable, res->Ok_0->0.inner->Type_0.associated_functions@)""", ("C07", "C17"), "build-base-functions"),
             ("""res is Ok && res->Ok_0 is Some ==> module_of(final(semantic), *resolvee_path) is Some && ({
                 let m = module_of(final(semantic), *resolvee_path)->0;
                 impl_functions_attached(&final(semantic).type_registry, module_scope(&m), impl_block_of(&m, *resolvee_path), res->Ok_0->0.inner->Type_0.associated_functions@) })""",
@@ -266,8 +345,11 @@ def apply(ctx, W):
         ])
 
     ghost(ctx, fw, u, stmt_with_loop(l_stmts)["span"][1], "let ghost pend = pending_regions@; let ghost own0 = vftable_functions;")
+    ghost(ctx, fw, u, stmt_with_loop(l_bases)["span"][1], "let ghost basef = associated_functions@;")
     ghost(ctx, fw, u, st[-1]["span"][0], """proof {
         assert(placement_exists(pend, regions@, &semantic.type_registry));
+        assert(base_functions_ok(&semantic.type_registry, regions@, vftable_names(vftable), associated_functions@.take(basef.len() as int)));
+        assert(build_base_functions_ok(&semantic.type_registry, regions@, vftable, associated_functions@));
         assert(vftable_of_first_base(&semantic.type_registry, *resolvee_path, pend, own0, vftable, regions@));
         assert(build_vftable_ok(&old(semantic).type_registry, module_scope(&module_of(old(semantic), *resolvee_path)->0), definition.statements@, &semantic.type_registry, *resolvee_path, vftable, regions@));
         assert(resolve_regions_spec(&semantic.type_registry, *resolvee_path, pend, own0, target_size, vftable, regions@, size));
